@@ -77,3 +77,36 @@ Section Certificate.
     - destruct kp; cbn [select]; [right|]; eapply IH; eauto.
   Qed.
 End Certificate.
+
+(** * replacing an entry by adjacent entries with the same action and the same union *)
+Section Expand.
+  Variables (A K : Type).
+  Variable matches : A -> K -> bool.
+  Variable action : A -> bool.
+  Variable f : A -> list A.                    (* the entries that replace an ACE, in place *)
+
+  Definition expand_item (i : item A) : list (item A) :=
+    match i with
+    | IAce l a => map (fun a' => IAce l a') (f a)
+    | IRemark l => [IRemark l]
+    end.
+
+  Theorem expand_decision (items : list (item A)) k :
+    (forall l a, In (IAce l a) items ->
+        (forall a', In a' (f a) -> action a' = action a) /\
+        matches a k = existsb (fun a' => matches a' k) (f a)) ->
+    decide matches action (flat_map expand_item items) k = decide matches action items k.
+  Proof.
+    induction items as [|i t IH]; intros H; [reflexivity|].
+    assert (Ht : forall l a, In (IAce l a) t ->
+        (forall a', In a' (f a) -> action a' = action a) /\
+        matches a k = existsb (fun a' => matches a' k) (f a)) by (intros; apply (H l a); now right).
+    cbn [flat_map]. destruct i as [l a|l]; cbn [expand_item].
+    - destruct (H l a (or_introl eq_refl)) as [Act M]. cbn [decide]. rewrite M.
+      clear M H. induction (f a) as [|a' fa IHf]; cbn [map app existsb decide]; [now apply IH|].
+      destruct (matches a' k) eqn:E; cbn [orb].
+      + f_equal. apply Act. now left.
+      + apply IHf. intros x Hx. apply Act. now right.
+    - cbn [app decide]. now apply IH.
+  Qed.
+End Expand.
